@@ -51,12 +51,16 @@ def r1_compare(ck, prog, run):
     c = sp.Symbol("c", real=True)
     n = 0
     for name, sym in COMPARISONS:
-        for label, mk, si in (("Phase, Phase", lambda p, q: [p, q], 0), ("Phase, number", lambda p, q: [p, Num(c)], 0), ("number, Phase", lambda p, q: [Num(c), p], 1)):
+        for label, mk, si, with_out in (("Phase, Phase", lambda p, q: [p, q], 0, False), ("Phase, number", lambda p, q: [p, Num(c)], 0, False),
+                                        ("number, Phase", lambda p, q: [Num(c), p], 1, False),
+                                        # the out= form is the sibling route of the same comparison: a caller's Boolean array receives the result
+                                        ("Phase, Phase, out=mask", lambda p, q: [p, q], 0, True)):
             n += 1
             p, q = make_phase(prog, "p"), make_phase(prog, "q")
             ins = mk(p, q)
             tag = f"np.{name}({label})"
-            r = ck.attempt("R1", f.where, tag, "the comparison branch evaluates on the Phase model", lambda: run_uf(prog, name, ins, si))
+            kw_ = {"out": TupleV([Num(sp.Symbol("MASK"), kind="array", shape=(), tag="data", backend="numpy", dtype=ExtV("numpy.bool_"))])} if with_out else None
+            r = ck.attempt("R1", f.where, tag, "the comparison branch evaluates on the Phase model", lambda: run_uf(prog, name, ins, si, kwargs=kw_))
             if r is None:
                 continue
             res, events, calls, ev = r
@@ -88,7 +92,7 @@ def r1_compare(ck, prog, run):
             ok = len(args) == 2 and isinstance(args[0], Num) and sp.simplify(args[0].expr - expected) == 0 and isinstance(args[1], Num) and args[1].expr == 0
             ck.same("R1", f.where, tag, f"{sym} is decided as ufunc((int0 - int1) + (frac0 - frac1), 0): operand order and both parts of both operands enter",
                     ok, found=str([str(a)[:90] for a in args]), nontrivial=True)
-    run.floor("R1", "comparison arrangements", n, 18)
+    run.floor("R1", "comparison arrangements", n, 24)
     for meth, uf_ in (("__eq__", "equal"), ("__ne__", "not_equal")):
         m = prog.func("Phase." + meth)
         run.touched(m)
